@@ -553,7 +553,8 @@ func VH_C09_root_kinds() {
 	sp.ServiceProviderSLOURL = vString("slo")
 	sig := vChoice("root.sig", 3)
 	var root *etree.Element
-	switch vChoice("root.kind", 5) {
+	kind := vChoice("root.kind", 5)
+	switch kind {
 	case 0:
 		root = vhAssertionEl("root", sig).el
 	case 1:
@@ -579,6 +580,46 @@ func VH_C09_root_kinds() {
 			sg := root.CreateElement("ds:Signature")
 			sg.CreateAttr("xmlns:ds", "http://www.w3.org/2000/09/xmldsig#")
 		}
+	}
+	enc := vEncodeDoc("wire", root, 0)
+	switch vChoice("entry", 6) {
+	case 0:
+		r, err := sp.ValidateEncodedResponse(enc)
+		vAssert("C09.result-xor-error", (r != nil) != (err != nil))
+		vAssert("C01,C10.a-message-of-another-kind-is-never-accepted-as-sso-response", err != nil)
+	case 1:
+		r, err := sp.RetrieveAssertionInfo(enc)
+		vAssert("C09.result-xor-error", (r != nil) != (err != nil))
+		vAssert("C01,C10.a-message-of-another-kind-is-never-accepted-as-sso-response", err != nil)
+	case 2:
+		r, err := sp.ValidateEncodedLogoutRequestPOST(enc)
+		vAssert("C09.result-xor-error", (r != nil) != (err != nil))
+		vAssert("C10.only-a-LogoutRequest-is-accepted-as-logout-request", err != nil || kind == 2)
+	case 3:
+		r, err := sp.ValidateEncodedLogoutResponsePOST(enc)
+		vAssert("C09.result-xor-error", (r != nil) != (err != nil))
+		vAssert("C10.only-a-LogoutResponse-is-accepted-as-logout-response", err != nil || kind == 3)
+	case 4:
+		r, err := DecodeUnverifiedBaseResponse(enc)
+		vAssert("C09.result-xor-error", (r != nil) != (err != nil))
+	case 5:
+		r, err := DecodeUnverifiedLogoutResponse(enc)
+		vAssert("C09.result-xor-error", (r != nil) != (err != nil))
+	}
+	vReach("returned", true)
+}
+
+// VH_C09_bare_config: an SP that supplies only an (empty) certificate store — no keys, no clock, nothing
+// else — fed the SSO and logout scenarios through every entry point: a result or an error, never a panic.
+func VH_C09_bare_config() {
+	sp := &SAMLServiceProvider{IDPCertificateStore: vEmptyStore(), SkipSignatureValidation: vFlag("skipSignatureValidation")}
+	var root *etree.Element
+	if vFlag("logout-message") {
+		kinds := []string{"samlp:LogoutRequest", "samlp:LogoutResponse"}
+		root = vhLogoutRoot(kinds[vChoice("root.kind", 2)], vChoice("root.sig", 3), "root").root
+	} else {
+		s := vhSSOScenario(1, vhKidKinds)
+		root = s.root
 	}
 	enc := vEncodeDoc("wire", root, 0)
 	switch vChoice("entry", 6) {
